@@ -220,7 +220,8 @@ func ipv6CreateRejectICMPPacket(packet []byte, out []byte, proto uint8, offset i
 	// Do not generate ICMPv6 errors in response to ICMPv6 error packets
 	if proto == 58 && len(packet) > offset {
 		icmpType := packet[offset]
-		if icmpType >= 1 && icmpType <= 4 {
+		// RFC 4443 2.1: every type with a zero high-order bit is an error message
+		if icmpType < 128 {
 			return nil
 		}
 	}
